@@ -266,6 +266,8 @@ fn bulk(w: &mut World, op: &Value) -> R<Value> {
     let mut dups: Vec<String> = vec![];
     let mut out_of_range = 0usize;
     let mut got = 0usize;
+    // the first scalars in the order they were handed out (one thread): relations between neighbours
+    let mut seq: Vec<[u8; 32]> = vec![];
     for k in 0..n {
         crate::runner::touch();
         let (_, log) = run_lib(&script, || {
@@ -287,6 +289,9 @@ fn bulk(w: &mut World, op: &Value) -> R<Value> {
             if got <= 20_000 {
                 w.observed.push((group.clone(), a.to_vec()));
             }
+            if seq.len() < 4096 {
+                seq.push(a);
+            }
         }
     }
     let case = fnv(&[b"c14bulk", group.as_bytes()]);
@@ -294,7 +299,51 @@ fn bulk(w: &mut World, op: &Value) -> R<Value> {
     w.check("C14", "M3-bulk-fresh", dups.is_empty() && got >= n, case, key.clone(), || {
         format!("{group}: {got} scalars from the real generator in one process: repeated: {}", dups.join(", "))
     });
-    w.check("C14", "M3-in-range", out_of_range == 0, case, key, || format!("{group}: {out_of_range} bulk scalars outside [1, order-1]"));
+    w.check("C14", "M3-in-range", out_of_range == 0, case, key.clone(), || format!("{group}: {out_of_range} bulk scalars outside [1, order-1]"));
+    // A scalar must not be a public function of the one handed out before it: whoever learns one
+    // secret (a private key) would know the next (a nonce). Tested: SM3 of the previous scalar
+    // (big- or little-endian bytes, up to three applications: candidates in between may have been
+    // rejected), a constant difference, a constant ratio of differences (linear congruential), each
+    // modulo 2^256 and modulo the group order.
+    {
+        use crate::refmodel::sm3::sm3_parts;
+        let mut chain_hits = 0usize;
+        for pair in seq.windows(2) {
+            let (prev, next) = (pair[0], pair[1]);
+            let mut le = prev;
+            le.reverse();
+            'forms: for start in [prev, le] {
+                let mut h = start;
+                for _ in 0..3 {
+                    h = sm3_parts(&[&h]);
+                    let mut hl = h;
+                    hl.reverse();
+                    if h == next || hl == next || BigUint::from_bytes_be(&h) % &m == BigUint::from_bytes_be(&next) {
+                        chain_hits += 1;
+                        break 'forms;
+                    }
+                }
+            }
+        }
+        let two256 = BigUint::one() << 256u32;
+        let vals: Vec<BigUint> = seq.iter().take(256).map(|b| BigUint::from_bytes_be(b)).collect();
+        let mut lin_hits = 0usize;
+        for modulus in [&two256, &m] {
+            let d: Vec<BigUint> = vals.windows(2).map(|p| ((&p[1] + modulus) - (&p[0] % modulus)) % modulus).collect();
+            let const_diff = d.windows(2).filter(|p| p[0] == p[1]).count();
+            lin_hits = lin_hits.max(const_diff);
+            if modulus == &m {
+                // ratio of consecutive differences modulo the (prime) order
+                let inv = |x: &BigUint| x.modpow(&(&m - 2u32), &m);
+                let r: Vec<BigUint> = d.windows(2).filter(|p| !p[0].is_zero()).map(|p| (&p[1] * inv(&p[0])) % &m).take(48).collect();
+                lin_hits = lin_hits.max(r.windows(2).filter(|p| p[0] == p[1]).count());
+            }
+        }
+        let key = json!({"entry": format!("generator.{group}"), "class": "scalar-predictable-from-previous", "outcome": "Ok"});
+        w.check("C14", "M3-not-a-function-of-previous", chain_hits < 3 && lin_hits < 3, case, key, || {
+            format!("{group}: among the first {} scalars handed out on one thread, {chain_hits} are the SM3 image of their predecessor and {lin_hits} neighbouring differences / difference ratios coincide: the next secret follows from the previous one", seq.len())
+        });
+    }
     w.bump_by(&format!("probe.c14.m3-bulk-scalars-{group}"), got as u64);
     Ok(json!({"scalars": got}))
 }
